@@ -46,12 +46,29 @@
 (* existing file with O_TRUNC), so they show through every name.  The      *)
 (* design variant LinkBackup ("backup by hard link, copy on EXDEV"; only   *)
 (* mc/Setup_linkbackup*.cfg set it) must be rejected by TLC when SameFs.   *)
+(*                                                                         *)
+(* Environment dimension ClockSteps: the wall clock may be stepped between *)
+(* two commands (timesync stepping back a clock that booted fast, resume   *)
+(* after migration, or simply more than a week passing).  The tool never   *)
+(* reads the clock or a file time for a decision, so the expected contents *)
+(* are the same whatever the clock does; the only trace a step leaves in   *)
+(* the model is bakodd = "the time stamp of the backed-up executable is    *)
+(* not within (now - 7 days, now] as the clock reads now", which no action *)
+(* of the design looks at.  The replay realises a step by shifting the     *)
+(* time stamps of every file of the tool's world (+3 min = clock stepped   *)
+(* back 3 min, -8 days = 8 days later) between two commands.  The design   *)
+(* variant StaleCheck ("restore refuses a backup whose time stamp is not   *)
+(* within the last 7 days"; only mc/Setup_stalecheck*.cfg set it) must be  *)
+(* rejected by TLC when ClockSteps.                                        *)
 (***************************************************************************)
 EXTENDS Naturals, Sequences, TLC
 
 CONSTANTS SameFs,      \* environment: link(2) from the system locations into the tool's Backup folder succeeds
           LinkBackup   \* design variant: backup_files hard-links the three packaged files, copies when link fails
 ASSUME SameFs \in BOOLEAN /\ LinkBackup \in BOOLEAN
+CONSTANTS ClockSteps,  \* environment: the wall clock can be stepped (either way) between two commands
+          StaleCheck   \* design variant: check_backup_exists also refuses a backup that does not look at most 7 days old
+ASSUME ClockSteps \in BOOLEAN /\ StaleCheck \in BOOLEAN
 
 Locs == {"exe", "cfg", "ebpf", "unit"}
 A    == "absent"
@@ -65,6 +82,7 @@ Cmds     == {"backup", "install", "restoreT", "restoreF", "uninstallS", "uninsta
 Restores == {"restoreT", "restoreF"}
 
 VARIABLES sys, pkg, bak, bdir, rest, svc, calls,
+          bakodd, \* the backed-up executable's time stamp is in the future or more than 7 days back, as the clock reads now
           lnk,   \* lnk[l]: Backup's file for l and the system location l are one inode (never, in the design)
           wrote, \* a system location has been written / removed by the current (last) command, whatever the bytes
           cmd,   \* the command in progress (pc > 0) or the last one completed (pc = 0); "none" initially
@@ -73,7 +91,7 @@ VARIABLES sys, pkg, bak, bdir, rest, svc, calls,
           pre,   \* ghost: the state when the current/last command began
           s0, rt, chk   \* ghosts for RoundTrip, see NextRt
 
-vars == <<sys, pkg, bak, bdir, rest, svc, calls, lnk, wrote, cmd, pc, res, pre, s0, rt, chk>>
+vars == <<sys, pkg, bak, bdir, rest, svc, calls, lnk, bakodd, wrote, cmd, pc, res, pre, s0, rt, chk>>
 
 -----------------------------------------------------------------------------
 \* The commands as programs (order of main.rs / linux.rs).
@@ -123,7 +141,7 @@ Init ==
   \E i \in {A, "a"}, b \in {A, "b"}, p \in {"p", "a"} :
     /\ p = "a" => i = "a"          \* "package byte-identical to the installed version" needs an installed version
     /\ sys = All(i) /\ bak = All(b) /\ bdir = (b # A) /\ pkg = All(p)
-    /\ rest = "r0" /\ lnk = All(FALSE)
+    /\ rest = "r0" /\ lnk = All(FALSE) /\ bakodd = FALSE
     /\ svc = IF i = A THEN "stopped" ELSE "running"
     /\ calls = << >> /\ wrote = FALSE /\ cmd = "none" /\ pc = 0 /\ res = "none"
     /\ pre = [sys |-> All(i), bak |-> All(b), bdir |-> (b # A), svc |-> IF i = A THEN "stopped" ELSE "running",
@@ -136,7 +154,13 @@ Begin(c) ==
   /\ pre' = Snapshot
   /\ chk' = FALSE
   /\ s0' = IF rt = 0 THEN All(A) ELSE s0
-  /\ UNCHANGED <<sys, pkg, bak, bdir, rest, svc, rt, lnk>>
+  /\ UNCHANGED <<sys, pkg, bak, bdir, rest, svc, rt, lnk, bakodd>>
+
+\* the environment steps the wall clock between two commands: nothing changes but how old the backup looks
+ClockStep ==
+  /\ ClockSteps /\ pc = 0 /\ bak["exe"] # A /\ ~bakodd
+  /\ bakodd' = TRUE
+  /\ UNCHANGED <<sys, pkg, bak, bdir, rest, svc, calls, lnk, wrote, cmd, pc, res, pre, s0, rt, chk>>
 
 Finish(r) ==
   /\ pc' = 0 /\ res' = r
@@ -161,19 +185,19 @@ DoCall ==
   /\ calls' = Append(calls, [v |-> St.a, s |-> sys, w |-> wrote])
   /\ svc' = CASE St.a = "stop" -> "stopped" [] St.a = "start" -> "running" [] OTHER -> svc
   /\ Adv
-  /\ UNCHANGED <<sys, pkg, bak, bdir, rest, wrote, cmd, pre, lnk>>
+  /\ UNCHANGED <<sys, pkg, bak, bdir, rest, wrote, cmd, pre, lnk, bakodd>>
 
 \* main.rs check_backup_exists: the backed-up executable decides
 DoCheckBackup ==
   /\ pc > 0 /\ St.k = "chk"
-  /\ IF bak["exe"] = A THEN Finish("skip") ELSE Adv
-  /\ UNCHANGED <<sys, pkg, bak, bdir, rest, svc, calls, wrote, cmd, pre, lnk>>
+  /\ IF bak["exe"] = A \/ (StaleCheck /\ bakodd) THEN Finish("skip") ELSE Adv
+  /\ UNCHANGED <<sys, pkg, bak, bdir, rest, svc, calls, wrote, cmd, pre, lnk, bakodd>>
 
 \* running::proxy_agent_version_target_folder runs `<exe> --version` on the packaged / backed-up executable
 DoProbe ==
   /\ pc > 0 /\ St.k = "probe"
   /\ IF Src(St.a)["exe"] \in {A, Z} THEN Finish("panic") ELSE Adv      \* an empty file cannot be executed either
-  /\ UNCHANGED <<sys, pkg, bak, bdir, rest, svc, calls, wrote, cmd, pre, lnk>>
+  /\ UNCHANGED <<sys, pkg, bak, bdir, rest, svc, calls, wrote, cmd, pre, lnk, bakodd>>
 
 \* linux::copy_files, one file: a missing source is logged and skipped
 DoCopyIn ==
@@ -182,7 +206,7 @@ DoCopyIn ==
        /\ IF src[St.a] # A THEN WriteSys(St.a, src[St.a], St.k = "cpB") ELSE UNCHANGED <<sys, bak>>
        /\ wrote' = (wrote \/ src[St.a] # A)
   /\ Adv
-  /\ UNCHANGED <<pkg, bdir, rest, svc, calls, cmd, pre, lnk>>
+  /\ UNCHANGED <<pkg, bdir, rest, svc, calls, cmd, pre, lnk, bakodd>>
 
 \* linux::setup_service -> copy_service_config_file: a missing source is fatal (exit 1, no start)
 DoCopyUnit ==
@@ -191,7 +215,7 @@ DoCopyUnit ==
        IF src["unit"] = A
        THEN Finish("fail") /\ UNCHANGED <<sys, bak, wrote>>
        ELSE WriteSys("unit", src["unit"], St.k = "unitB") /\ wrote' = TRUE /\ Adv
-  /\ UNCHANGED <<pkg, bdir, rest, svc, calls, cmd, pre, lnk>>
+  /\ UNCHANGED <<pkg, bdir, rest, svc, calls, cmd, pre, lnk, bakodd>>
 
 \* linux::backup_files, one file (copy_file creates Backup/Package first; a missing source is logged and skipped,
 \* which leaves whatever an earlier backup put there).  The design copies the bytes into a file of its own.
@@ -207,6 +231,7 @@ DoBackupFile ==
      THEN bak' = [bak EXCEPT ![St.a] = Z] /\ sys' = [sys EXCEPT ![St.a] = Z] /\ UNCHANGED lnk
      ELSE bak' = [bak EXCEPT ![St.a] = sys[St.a]] /\ UNCHANGED <<sys, lnk>>
   /\ bdir' = TRUE
+  /\ bakodd' = IF St.a = "exe" /\ sys["exe"] # A THEN FALSE ELSE bakodd     \* a file just written carries the time it was written
   /\ Adv
   /\ UNCHANGED <<pkg, rest, svc, calls, wrote, cmd, pre>>
 
@@ -217,7 +242,7 @@ DoRemoveUnit ==
      THEN sys' = [sys EXCEPT !["unit"] = A] /\ wrote' = TRUE /\ Adv
      ELSE UNCHANGED <<sys, wrote>> /\ Goto(pc + 2)
   /\ lnk' = [lnk EXCEPT !["unit"] = FALSE]       \* unlink removes one name; the other keeps the inode
-  /\ UNCHANGED <<pkg, bak, bdir, rest, svc, calls, cmd, pre>>
+  /\ UNCHANGED <<pkg, bak, bdir, rest, svc, calls, cmd, pre, bakodd>>
 
 \* linux::delete_files, one file
 DoDeleteFile ==
@@ -226,12 +251,12 @@ DoDeleteFile ==
   /\ lnk' = [lnk EXCEPT ![St.a] = FALSE]
   /\ wrote' = (wrote \/ sys[St.a] # A)
   /\ Adv
-  /\ UNCHANGED <<pkg, bak, bdir, rest, svc, calls, cmd, pre>>
+  /\ UNCHANGED <<pkg, bak, bdir, rest, svc, calls, cmd, pre, bakodd>>
 
 \* main.rs delete_backup_folder: remove_dir_all(<dir>/ProxyAgent/Backup)
 DoDeleteBackup ==
   /\ pc > 0 /\ St.k = "rmbak"
-  /\ bak' = All(A) /\ bdir' = FALSE /\ lnk' = All(FALSE)
+  /\ bak' = All(A) /\ bdir' = FALSE /\ lnk' = All(FALSE) /\ bakodd' = FALSE
   /\ Adv
   /\ UNCHANGED <<sys, pkg, rest, svc, calls, wrote, cmd, pre>>
 
@@ -247,6 +272,7 @@ Next == \/ BeginBackup \/ BeginInstall \/ BeginRestoreT \/ BeginRestoreF
         \/ BeginUninstallS \/ BeginUninstallP \/ BeginPurge
         \/ DoCall \/ DoCheckBackup \/ DoProbe \/ DoCopyIn \/ DoCopyUnit \/ DoBackupFile
         \/ DoRemoveUnit \/ DoDeleteFile \/ DoDeleteBackup
+        \/ ClockStep
 
 Spec == Init /\ [][Next]_vars
 
@@ -259,7 +285,7 @@ Done == pc = 0 /\ cmd # "none"
 Content == {A, "a", "b", "p"} \cup (IF LinkBackup THEN {Z} ELSE {})
 TypeOK ==
   /\ sys \in [Locs -> Content] /\ bak \in [Locs -> Content] /\ pkg \in [Locs -> Content]
-  /\ lnk \in [Locs -> BOOLEAN]
+  /\ lnk \in [Locs -> BOOLEAN] /\ bakodd \in BOOLEAN
   /\ bdir \in BOOLEAN /\ svc \in {"running", "stopped"} /\ cmd \in Cmds \cup {"none"}
   /\ wrote \in BOOLEAN /\ pc \in 0..12 /\ res \in {"none", "run", "ok", "skip", "fail", "panic"} /\ rt \in 0..2 /\ chk \in BOOLEAN
 
